@@ -152,8 +152,98 @@ def self_test(ctx, raw):
     ctx.extra["selftest_clean_lines_accepted"] = len(good)
 
 
+SKEL_REQUIRED = TYPES + ["skel", "sksamples", "skon", "sksurf", "skeuclid", "skinexact", "sklerp", "scaled"]
+SKEL_INVARIANTS = ["SkAdm", "SkRefAgrees", "SkCoreInside", "Emit"]
+
+
+def skel_cases(ctx):
+    """SdfSkel.tla: the model derives the skeleton parts of every shape and the sample descriptors on them."""
+    level = PARAMS[ctx.tier]["level"]
+    d = ctx.scratch("skelgen")
+    cfg = os.path.join(ctx.scratch("skelgen-cfg"), "skel.cfg")
+    with open(cfg, "w") as f:
+        f.write("CONSTANTS\n  Level = %d\n  Seed = %d\nSPECIFICATION Spec\nINVARIANTS %s\nCHECK_DEADLOCK FALSE\n"
+                % (level, ctx.seed, " ".join(SKEL_INVARIANTS)))
+    r = core.run_tlc(d, "SdfSkel", "skel.cfg", files=[(cfg, "skel.cfg")], workers=min(core.NCPU, 4), timeout=1200, heap="2g")
+    if r.rc != 0:
+        raise core.Infra("SdfSkel.tla violates its own law %s (specification bug)" % r.violated)
+    ctx.add_tlc(r)
+    gen = [v for v in r.values if isinstance(v, dict) and v.get("k") == "skel"]
+    gen.sort(key=lambda c: json.dumps(c, sort_keys=True))
+    if len(gen) != r.distinct or not gen:
+        raise core.Infra("skeleton generator printed %d cases for %d states" % (len(gen), r.distinct))
+    return gen
+
+
+def skel_judge(ctx, vh, cases, name="skel", nshards=None):
+    d = ctx.scratch(name + "-exec")
+    cp = os.path.join(d, "cases.ndjson")
+    core.write_ndjson(cp, cases)
+    tp = os.path.join(d, "trace.ndjson")
+    core.run_vh(vh, ["sdf-skel", "-in", cp, "-out", tp], timeout=1800)
+    with open(tp) as f:
+        raw = f.readlines()
+    if len(raw) != len(cases):
+        raise core.Infra("sdf-skel wrote %d lines for %d cases" % (len(raw), len(cases)))
+    findings, stats = [], {}
+    results = core.validate_sharded(ctx, name, "TraceSdf", "TraceSdf.cfg", raw, timeout=3000,
+                                    nshards=nshards or min(core.NCPU, 8), is_boundary=lambda ln: True)
+    for sh, r in results:
+        got = False
+        for v in r.values:
+            if isinstance(v, dict) and "stats" in v:
+                got = True
+                for k, n in v["stats"].items():
+                    stats[k] = stats.get(k, 0) + n
+            elif isinstance(v, dict) and "bad" in v:
+                ln = json.loads(sh[v["l"] - 1])
+                for pred in v["bad"]:
+                    findings.append({"pred": pred, "id": ln["id"]})
+        if not got:
+            raise core.Infra("trace shard of %s printed no statistics" % name)
+    ctx.traces += len(cases)
+    ctx.evaluations += sum(len(c["smp"]) for c in cases)
+    return findings, stats
+
+
+def skel_signature(pred, case):
+    """<Pred>/<shape>/<skeleton part>[/scaled]: pred arrives from the judge as 'C19.Finite/core'."""
+    name, _, part = pred.partition("/")
+    return "%s/%s/%s%s" % (name, discriminator(case["shape"]), part or "skeleton", "/scaled" if case.get("e2", 0) else "")
+
+
+def skeleton_pass(ctx, vh, prefix):
+    cases = skel_cases(ctx)
+    findings, stats = skel_judge(ctx, vh, cases)
+    ctx.extra["skeleton_cases"] = len(cases)
+    ctx.extra["skeleton_exercised"] = {k: v for k, v in stats.items() if v}
+    missing = [k for k in SKEL_REQUIRED if stats.get(k, 0) == 0]
+    if missing:
+        raise core.Infra("vacuous (skeleton samples): never exercised: %s" % missing)
+    per_sig = {}
+    for f in findings:
+        if f["pred"].startswith("Harness."):
+            raise core.Infra("harness inconsistency %s at skeleton case %d" % (f["pred"], f["id"]))
+        if not f["pred"].startswith(prefix + "."):
+            continue
+        case = cases[f["id"]]
+        sig = skel_signature(f["pred"], case)
+        per_sig[sig] = per_sig.get(sig, 0) + 1
+        if per_sig[sig] > 1:
+            continue
+        what = "%s rejected skeleton samples (td=%d, via=%s) of den=%d e2=%d shape %s" % (
+            f["pred"], case["td"], case["via"], case["den"], case["e2"], json.dumps(case["shape"])[:300])
+        ctx.violation(sig, what, {"family": "sdf", "skel": True, "case": case, "seed": ctx.seed})
+    ctx.extra["skeleton_rejections_by_signature"] = per_sig
+    ctx.assumptions += [
+        "skeleton samples: the rational point a + (tn/td)(b-a) + o is judged exactly (shape scaled by td); the float point "
+        "the harness constructs differs from it by rounding (~1e-16 relative), far below the precision 1/64 of a lattice unit",
+    ]
+
+
 def run_family(ctx, prefix="C19"):
     vh = core.build_vh()
+    skeleton_pass(ctx, vh, prefix)
     cases, notes = collect_cases(ctx, vh)
     findings, stats, raw = execute_and_judge(ctx, vh, cases, far=PARAMS[ctx.tier]["far"])
     ctx.extra.update(notes)
@@ -171,7 +261,10 @@ def run_family(ctx, prefix="C19"):
                 "overlapping 3x3x3 blocks + seeded far points; every enumerated shape with den = 1 again at the binary "
                 "magnitudes 2^-40 and 2^40 and at rotated magnitudes in between (5x5x5 / 3x3x3 lattices + far points), "
                 "every other random shape at a binary magnitude; a case is distinct by (shape, den, e2), non-trivial if its "
-                "samples include inside and outside points" % notes["generator_level"])
+                "samples include inside and outside points; plus skeleton cases of SdfSkel.tla: per shape and part of its "
+                "skeleton (core, axis, centre, diameter, box axis/diagonal/edge/face, cylinder radius, in-plane, normal) "
+                "the points a + (tn/td)(b-a) + o for every tn in 0..td, td from the ladder 8,3,7,10,5,12, o = 0 and "
+                "model-chosen perpendicular offsets, constructed as a+(b-a)t and as lerp" % notes["generator_level"])
     ctx.nontrivial = len({json.dumps([c["shape"], c["den"], c.get("e2", 0)], sort_keys=True) for c in cases})
     for c in cases[:1] + cases[-1:]:
         ctx.sample({"den": c["den"], "e2": c.get("e2", 0), "shape": c["shape"], "tag": c.get("tag")})
@@ -252,6 +345,16 @@ def replay_family(ctx, path, prefix="C19"):
     c = obj["case"]
     ctx.seed = int(c.get("seed", ctx.seed))
     vh = core.build_vh()
+    if c.get("skel"):
+        findings, stats = skel_judge(ctx, vh, [c["case"]], name="replay-skel", nshards=1)
+        for f in findings:
+            print("replay (skeleton): %s" % f["pred"])
+            if f["pred"].startswith(prefix + "."):
+                ctx.violation(skel_signature(f["pred"], c["case"]), "replayed", c)
+        ctx.rule = "replay of one recorded skeleton case"
+        ctx.nontrivial = 1
+        ctx.sample({"replayed": path})
+        return
     if c.get("concurrent"):
         # the recorded case 200 times over, its closures shared by PAR goroutines; up to 4 rounds
         findings = []
